@@ -24,11 +24,15 @@ def run(spec, args, kwargs):
             v = h(*args, **(kwargs or {}))
         if spec['params'].get('_twin') == 'reach':
             out['reproduced'] = v is True
+            if v is not True:
+                out['failed_concretely'] = True
+                out['detail'] = _js(dict(harness.DETAIL)) or dict(returned=repr(v))
         elif v is not True:
             out['reproduced'] = True
             out['detail'] = _js(dict(harness.DETAIL)) or dict(returned=repr(v))
     except Exception as e:  # the harness raised: that is a failure of the obligation too
-        out['reproduced'] = True
+        out['reproduced'] = spec['params'].get('_twin') != 'reach'
+        out['failed_concretely'] = True
         out['exception'] = '%s: %s' % (type(e).__name__, e)
         out['detail'] = dict(trace=traceback.format_exc()[-1200:])
     return out
